@@ -205,6 +205,30 @@ func (c *Ctx) treePositionSweep() {
 	}
 	mout := c.Worker.Map(mreqs)
 	lout := c.Worker.Map(lreqs)
+	// every location of a load error (not only the first) belongs to the one file the error names
+	var qreqs []string
+	for _, r := range lreqs {
+		qreqs = append(qreqs, "loadlocs"+strings.TrimPrefix(r, "loaddoc"))
+	}
+	for i, o := range c.Worker.Map(qreqs) {
+		f := strings.Split(o, "|")
+		if len(f) != 3 || f[1] == "" {
+			continue
+		}
+		si, _ := strconv.Atoi(f[0])
+		m, _ := impl.UnhexW(f[2])
+		locs := strings.Split(f[1], ";")
+		if si < 1 || len(locs) < 2 {
+			continue // (the first location is judged below with the others of its kind)
+		}
+		tabs := c.tokenTables(sets[i])
+		for _, lc := range locs[1:] {
+			xy := strings.Split(lc, ":")
+			l, _ := strconv.Atoi(xy[0])
+			cl, _ := strconv.Atoi(xy[1])
+			c.judgeErrorLocation("load-error-further-location", l, cl, si-1, tabs, sets[i], string(m))
+		}
+	}
 	for i, set := range sets {
 		tabs := c.tokenTables(set)
 		c.Ev.Case("s"+lout[i][:min(len(lout[i]), 60)], len(set) > 1)
